@@ -1,6 +1,8 @@
 """C01 - trajectory is the solution of the point-mass equations of motion."""
 import time
 
+from contracts.integrate_rt import rt_integrate  # noqa: F401
+
 LEVEL = 'other'
 EXPLANATION = ('Deductive part (all shots, all iterations): the integration loop of TrajectoryCalc._integrate is cut at an '
                'inductive invariant; for an ARBITRARY state at the head of an iteration the step clauses show that the '
@@ -25,7 +27,7 @@ EXTRA_ASSUMPTIONS = ['A-NUM: a consistent one-step method for an ODE with locall
 NOT_DECIDED = ['convergence to the exact ODE solution as the step is refined (A-NUM)',
                'error at the default step <= small multiple of the step-halving change: bounded stand-in only',
                'vacuum closed-form parabola: bounded stand-in only (the vacuum invariant with ghost sum dt^2 was not built)']
-EXTRA = ['bounded_step_halving', 'bounded_vacuum_parabola']
+EXTRA = ['bounded_step_halving', 'bounded_vacuum_parabola', 'rt_integrate']
 
 
 def bounded_step_halving(tier, seed):
